@@ -157,6 +157,9 @@ HOSTILE_CAPS = [' owner', 'owner ', '\towner', 'owner\n', '\nowner', 'own er', '
 HOSTMASKS = ACTORS + [OWNER, '*!*@evil.host', '*!*@bob.host', 'x!y@z', 'mal!m@mal.host', '*!*@mal.host',
                       'a!b@c\n', '*!*@*', '?!?@?', 'x', '', 'all', 'EVE!E@EVIL.HOST', 'nick!user@ho st']
 CHANS = ['#chan', '#CHAN', '#other', '#chan\n', '#chan ', 'chan', '#a,b', '&x']
+PLUGINS = ['User', 'user', 'USER', 'Admin', 'Channel', 'Misc', 'Owner', 'nosuch', '', 'Us er']
+PCOMMANDS = ['register', 'whoami', 'capability', 'hostmask', 'ping', 'no-such', 'regi_ster', 'REGISTER', 'list', 'a b', '',
+             'identify-', 'op', 'ignore', 'defaultcapability']
 
 def pick(r, good, hostile, p=0.25):
     return r.choice(hostile) if r.random() < p else r.choice(good)
@@ -166,7 +169,7 @@ def gen_cmd(r, S=None):
                   'hostmaskAdd', 'hostmaskRemove', 'setPassword', 'setSecure', 'capAdd', 'capAdd', 'capAdd', 'capAdd', 'capRemove',
                   'chanCapAdd', 'chanCapAdd', 'chanCapRemove', 'chanCapSet', 'chanCapUnset', 'chanSetDefault', 'ignoreAdd',
                   'ignoreRemove', 'defaultCapAdd', 'defaultCapRemove', 'configCaps', 'flushReload', 'flushReload',
-                  'reload', 'reload'])
+                  'reload', 'reload', 'flushAll', 'upkeep', 'chanDisable', 'chanDisable', 'chanEnable'])
     users = S['users'] if S else []
     live_names = [u['name'] for _, u in users if u['name']] or NAMES
     def name():
@@ -209,6 +212,18 @@ def gen_cmd(r, S=None):
             n, cs = r.choice(chans); return (k, [n, [r.choice(cs) for _ in range(r.randint(1, 2))]])
         return (k, [r.choice(CHANS), [cap() for _ in range(r.randint(1, 3))]])
     if k == 'chanSetDefault': return (k, [r.choice(CHANS), r.random() < 0.5])
+    if k == 'upkeep': return (k, [r.random() < 0.5])
+    if k == 'chanDisable':
+        if r.random() < 0.5:
+            pl, cm = r.choice([('User', 'register'), ('user', 'WhoAmI'), ('Admin', 'ignore'), ('Channel', 'op'), ('Misc', 'ping'),
+                               ('Owner', 'default-capability'), ('USER', 'identify-')])
+            return (k, [r.choice(['#chan', '#chan', '#CHAN', '#other']), pl, cm])
+        return (k, [r.choice(CHANS), r.choice(PLUGINS), r.choice(PCOMMANDS)])
+    if k == 'chanEnable':
+        dis = [(n, c_) for n, ch in (S['chans'] if S else []) for c_ in ch['caps'] if c_.startswith('-') and '.' in c_]
+        if dis and r.random() < 0.7:
+            n, c_ = r.choice(dis); pl, cm = c_[1:].split('.', 1); return (k, [n, pl, cm])
+        return (k, [r.choice(CHANS), r.choice(PLUGINS), r.choice(PCOMMANDS)])
     if k == 'ignoreAdd': return (k, [r.choice(HOSTMASKS + ['eve', 'bob', 'nobody'])])
     if k == 'ignoreRemove':
         ig = [h for h, _ in (S['ignores'] if S else [])]
@@ -221,7 +236,7 @@ def gen_actor(r, k):
     """the actor most likely to get through the guard of `k`, most of the time"""
     x = r.random()
     if x < 0.5:
-        if k.startswith('chanCap') or k == 'chanSetDefault': return ACTORS[2]
+        if k.startswith('chanCap') or k in ('chanSetDefault', 'chanDisable', 'chanEnable'): return ACTORS[2]
         if k in ('capAdd', 'capRemove', 'ignoreAdd', 'ignoreRemove'): return ACTORS[3]
     return r.choice(ACTORS)
 
@@ -232,7 +247,7 @@ TEXT = {'register': 'user register', 'unregister': 'user unregister', 'changenam
         'chanCapSet': 'channel capability set', 'chanCapUnset': 'channel capability unset',
         'chanSetDefault': 'channel capability setdefault', 'ignoreAdd': 'admin ignore add', 'ignoreRemove': 'admin ignore remove',
         'defaultCapAdd': 'owner defaultcapability add', 'defaultCapRemove': 'owner defaultcapability remove',
-        'configCaps': 'config supybot.capabilities'}
+        'configCaps': 'config supybot.capabilities', 'chanDisable': 'channel disable', 'chanEnable': 'channel enable'}
 
 def flat_args(k, args):
     out = []
@@ -284,11 +299,18 @@ def entitled_grant(b, before_fn, prefix, k, args):
     return before_fn
 
 # ---------------------------------------------------------------------------------------------
+def plugins_line(b):
+    tbl = []
+    for cb in b.irc.callbacks:
+        cmds = [c for c in dir(cb) if hasattr(cb, 'isCommandMethod') and cb.isCommandMethod(c)]
+        tbl.append((cb.name(), cmds))
+    return 'plugins\t' + c16.enc_entries(lambda cs: c16.encL('+', cs), tbl)
+
 def run_history(b, r, n_steps, out, hist_id):
     ircdb = b.ircdb
     setup(b)
     S = snap(b)
-    drv = ['init\t%s\t%s\t%s\t-\t1' % (c16.enc_users(S['users']), c16.enc_chans(S['chans']), c16.encL(',', [str(x) for x in b.conf.supybot.capabilities()]))]
+    drv = [plugins_line(b), 'init\t%s\t%s\t%s\t-\t1' % (c16.enc_users(S['users']), c16.enc_chans(S['chans']), c16.encL(',', [str(x) for x in b.conf.supybot.capabilities()]))]
     steps = []
     prev = S
     trail = []
@@ -306,6 +328,17 @@ def run_history(b, r, n_steps, out, hist_id):
             ircdb.users.flush(); ircdb.users.reload()
             ircdb.channels.flush(); ircdb.channels.reload()
             ircdb.ignores.flush(); ircdb.ignores.reload()
+            ok = True
+            guard = None
+        elif k in ('flushAll', 'upkeep'):
+            # world.flush() as run by the owner's `flush` command / shutdown, and the periodic world.upkeep()
+            # whose flushing part is switched by supybot.flush
+            if k == 'flushAll':
+                b.world.flush()
+            else:
+                b.conf.supybot.flush.setValue(bool(args[0]))
+                try: b.world.upkeep()
+                finally: b.conf.supybot.flush.setValue(False)
             ok = True
             guard = None
         elif k == 'reload':
@@ -388,14 +421,14 @@ def run_history(b, r, n_steps, out, hist_id):
         changed = enc_state(cur) != enc_state(prev)
         tags = [k] + (['changed'] if changed else []) + (['ok'] if ok else [])
         c = Case({'history': hist_id, 'step': si, 'trail': list(trail)}, impl=('1' if ok else '0') + '\t' + enc_state(cur),
-                 oracle_ok=(not msgs), oracle_msg='; '.join(msgs), kind='history', tags=tuple(tags) if (changed or k in ('flushReload', 'reload')) else ())
+                 oracle_ok=(not msgs), oracle_msg='; '.join(msgs), kind='history', tags=tuple(tags) if (changed or k in ('flushReload', 'reload', 'flushAll', 'upkeep')) else ())
         steps.append(c)
         drv.append('cmd\t%s\t%s' % (wire.enc(actor), enc_cmd(k, args)))
         prev = cur
     def fill(o, steps=steps):
-        # o[0] = init echo; one line per step
+        # o[0] = plugins, o[1] = init echo; one line per step
         res = []
-        for line in o[1:]:
+        for line in o[2:]:
             f = line.split('\t')
             try:
                 res.append(f[0] + '\t' + canon_model_state(f[1:]))
@@ -465,6 +498,10 @@ def replay(ctx, path):
         elif k == 'reload':
             b.ircdb.users.reload(); b.ircdb.ignores.reload(); b.ircdb.channels.reload()
             print('reload without flush')
+        elif k == 'flushAll':
+            b.world.flush(); print('world.flush()')
+        elif k == 'upkeep':
+            b.conf.supybot.flush.setValue(bool(args[0])); b.world.upkeep(); b.conf.supybot.flush.setValue(False); print('world.upkeep()')
         else:
             text = irc_text(b, k, args)
             outm = bot.feed(b, actor, b.irc.nick, text)
